@@ -9,10 +9,7 @@
 //!       are untouched, and a second digest exchange finds no divergence
 //!   O4  repeated rounds under a small limit either converge or reach a divergent fixed
 //!       point (limit starvation, a known finding)
-#[path = "c07.rs"]
-#[allow(dead_code)]
-mod c07;
-use c07::{obs, rv_term};
+use vharness::rv::{obs, rv_term};
 use rand::seq::SliceRandom;
 use rand::Rng as _;
 use redis_sim::redis::SDS;
